@@ -14,3 +14,5 @@ pub mod world;
 pub mod rtcworld;
 pub mod rtcgens;
 pub mod typed;
+pub mod rfnworld;
+pub mod rfngens;
